@@ -1215,6 +1215,9 @@ bool BW_MidiSequencer::processEvents(bool isSeek)
     m_loop.caughtEnd = false;
     const size_t        trackCount = m_currentPosition.track.size();
     const Position      rowBeginPosition(m_currentPosition);
+    // No repeat is left: arriving at the loop end now means leaving the loop
+    const bool          noRepeatLeft = !m_loop.temporaryBroken && !m_loopHooksOnly &&
+                                       m_loop.loopsCount >= 0 && m_loop.loopsLeft < 1;
     bool     doLoopJump = false;
     unsigned caughLoopStart = 0;
     unsigned caughLoopStackStart = 0;
@@ -1282,8 +1285,13 @@ bool BW_MidiSequencer::processEvents(bool isSeek)
                         caughLoopStackEnds++;
                         caughLoopStackEndsTime = track.pos->time;
                     }
-                    doLoopJump = true;
-                    break; // Stop event handling on catching loopEnd event!
+                    // The pass that leaves the loop delivers the rest of the row:
+                    // these events follow the loop end and are due exactly once
+                    if(!(m_loop.caughtEnd && noRepeatLeft))
+                    {
+                        doLoopJump = true;
+                        break; // Stop event handling on catching loopEnd event!
+                    }
                 }
             }
 
@@ -1425,8 +1433,12 @@ bool BW_MidiSequencer::processEvents(bool isSeek)
         if(m_interface->onloopEnd) // Loop End hook
             m_interface->onloopEnd(m_interface->onloopEnd_userData);
 
-        for(uint8_t i = 0; i < 16; i++)
-            m_interface->rt_controllerChange(m_interface->rtUserData, i, 123, 0);
+        // No jump follows when the loop is left at its end marker: the notes of that row keep sounding
+        if(shortestDelayNotFound || !noRepeatLeft)
+        {
+            for(uint8_t i = 0; i < 16; i++)
+                m_interface->rt_controllerChange(m_interface->rtUserData, i, 123, 0);
+        }
 
         // Loop if song end or loop end point has reached
         m_loop.caughtEnd         = false;
